@@ -12,9 +12,9 @@ TRANSLATORS = ["tr_pure", "tr_tables"]
 SHAPE_KEYS = ["decay_time_series", "AbstractInventory::plot", "InventoryHP::plot", "decay_graph", "Inventory::decay", "InventoryHP::decay"]
 PARTIAL = ["pointwise equality of series/curves with separate decays, grids, curve selection and limits are decided on the implementation "
            "(bit-identical comparison for all 47 read-out kinds x {linear, log}); the proof covers the unit dispatch for every string, the y-labels and the linear grid model",
-           "numpy.logspace: the exponents are checked bit-exactly against the linear-grid model, the power within 2 ulp (libm pow); what matplotlib draws is outside the model"]
+           "numpy.logspace: the exponents are checked bit-exactly against the linear-grid model, the power within 2 ulp (libm pow); matplotlib rendering below Axes.plot is outside the model"]
 TRUSTED_BASE = ["Coq 8.16.1 kernel incl. vm_compute", "axioms: none (primitive float items for the grid model)",
-                "tr_pure.py dispatch-chain extractor; tr_shapes.py ties", "harness tools/impl_series.py (decay_graph arguments captured by replacing the function in the driver)"]
+                "tr_pure.py dispatch-chain extractor; tr_shapes.py ties", "harness tools/impl_series.py (decay_graph wrapped to record its arguments; drawn lines read back from the matplotlib axes)"]
 ASSUMPTIONS = ["numpy.linspace computes i*step+start with the last point set to stop (checked bit-exactly per case)"]
 
 
